@@ -78,6 +78,26 @@ class AnyEq:
     return f'<AnyEq {self.oid} at 0x7f00>'
 
 
+class BadRepr:
+  """An object that cannot be printed (opaque ids 470..479): whoever calls repr() on it fails."""
+  _all = {}
+
+  def __init__(self, oid):
+    self.oid = oid
+
+  @classmethod
+  def get(cls, oid):
+    if oid not in cls._all:
+      cls._all[oid] = BadRepr(oid)
+    return cls._all[oid]
+
+  def __repr__(self):
+    raise RuntimeError('this object cannot be printed')
+
+  def __deepcopy__(self, memo):
+    return self
+
+
 class ProbeResult:
   """What a probe configurable returns."""
 
@@ -121,6 +141,8 @@ def encode(v, gin=None, session=None):
   if t in (set, frozenset):
     return {'set': sorted((encode(x, gin, session) for x in v), key=canon)}
   if t is AnyEq:
+    return {'o': v.oid}
+  if t is BadRepr:
     return {'o': v.oid}
   if t is IntMode:
     return {'o': 21}
@@ -181,6 +203,8 @@ def decode(j, gin=None):
         return ENUM_OPAQUES[j['o']]
       if 460 <= j['o'] < 470:
         return AnyEq.get(j['o'])
+      if 470 <= j['o'] < 480:
+        return BadRepr.get(j['o'])
       return Opaque.get(j['o'])
     if 'req' in j:
       return gin.config.REQUIRED
